@@ -487,6 +487,14 @@ class Facts(object):
         b = self.bodies[root]
         c = self.bodies.get(root + "::{closure#0}")
         if c is not None and c.coroutine and len(b.blocks) <= 12:
+            # #[tracing::instrument] on an async fn wraps the real body in one more async block
+            for _ in range(2):
+                inner = self.bodies.get(c.id + "::{closure#0}")
+                if inner is not None and inner.coroutine and any(
+                        "tracing_attributes::instrument" in (blk["t"].get("exp") or []) for blk in c.blocks if blk["t"]["k"] == "call"):
+                    c = inner
+                else:
+                    break
             return c
         return b
 
@@ -612,6 +620,7 @@ TRANSPARENT = re.compile(
     r"|core::ops::deref::Deref(Mut)?::deref(_mut)?|<.* as core::ops::deref::Deref(Mut)?>::deref(_mut)?"
     r"|core::ops::try_trait::Try::branch|<.* as core::ops::try_trait::Try>::branch"
     r"|core::ops::try_trait::FromResidual::from_residual|<.* as core::ops::try_trait::FromResidual<.*>>::from_residual"
+    r"|core::option::Option::<&T>::(cloned|copied)|core::option::Option::<&mut T>::(cloned|copied)|alloc::slice::<impl \[T\]>::to_vec|core::mem::take|core::mem::replace"
     r"|core::option::Option::<T>::(unwrap|expect|unwrap_or|unwrap_or_default|unwrap_or_else|as_ref|as_mut|cloned|copied|map|ok_or|ok_or_else|take|as_deref|and_then|or|or_else|filter|unwrap_unchecked)"
     r"|core::result::Result::<T, E>::(unwrap|expect|unwrap_or|unwrap_or_default|unwrap_or_else|as_ref|as_mut|map|map_err|ok|and_then)"
     r"|core::cmp::Ord::(min|max)|core::cmp::(min|max)|<.* as core::cmp::Ord>::(min|max)"
@@ -672,6 +681,13 @@ class Slice(object):
             self.sources.add(("field", adt, f))
         for u in place_upvars(pl):
             self.sources.add(("upvar", u))
+            # edition-2021 disjoint captures are named like `*self.field.sub`: record the field names too
+            base = u.lstrip("*&")
+            if "." in base:
+                parts = base.split(".")
+                self.sources.add(("upvar", parts[0]))
+                for seg in parts[1:]:
+                    self.sources.add(("field", "<captured>", seg))
         for e in pl.get("pj", []):
             if isinstance(e, dict) and "ix" in e:
                 self.local(e["ix"])
@@ -731,7 +747,7 @@ class Slice(object):
 
     # convenience predicates
     def has_field(self, adt_suffix, field):
-        return any(s[0] == "field" and s[2] == field and strip_generics(s[1]).endswith(adt_suffix) for s in self.sources)
+        return any(s[0] == "field" and s[2] == field and (s[1] == "<captured>" or strip_generics(s[1]).endswith(adt_suffix)) for s in self.sources)
 
     def has_call(self, rx):
         r = re.compile(rx)
